@@ -473,6 +473,13 @@ func (db *SingleBucketBackend) deleteObjectLocked(bucketName, objectName string)
 	if !validKey(objectName) {
 		return invalidKey(objectName)
 	}
+
+	// A directory is the parent of other keys, not an object; deleting such a
+	// key is deleting a key that does not exist.
+	if st, err := db.fs.Stat(filepath.FromSlash(objectName)); err == nil && st.IsDir() {
+		return nil
+	}
+
 	// S3 does not report an error when attemping to delete a key that does not exist, so
 	// we need to skip IsNotExist errors.
 	if err := db.fs.Remove(filepath.FromSlash(objectName)); err != nil && !os.IsNotExist(err) {
